@@ -108,6 +108,15 @@ func ReceiveFeedback(item *models.Item) error {
 		globalReactor.stateTable.CompareAndDelete(item.GetID(), item)
 		return ErrFeedbackItemNotPresent
 	}
+
+	// Same as in ReceiveInsert: a stopping or frozen reactor accepts nothing further
+	if globalReactor.ctx.Err() != nil {
+		return ErrReactorShuttingDown
+	}
+	if globalReactor.freezeCtx.Err() != nil {
+		return ErrReactorFrozen
+	}
+
 	select {
 	case <-globalReactor.ctx.Done():
 		return ErrReactorShuttingDown
@@ -123,6 +132,17 @@ func ReceiveFeedback(item *models.Item) error {
 func ReceiveInsert(item *models.Item) error {
 	if globalReactor == nil {
 		return ErrReactorNotInitialized
+	}
+
+	// A select picks randomly among its ready cases: check first that the reactor
+	// is not already stopping or frozen, else it would still accept items when a token is free
+	if globalReactor.ctx.Err() != nil {
+		logger.Debug("received item on shutting down reactor", "item", item.GetShortID())
+		return ErrReactorShuttingDown
+	}
+	if globalReactor.freezeCtx.Err() != nil {
+		logger.Debug("received item on frozen reactor", "item", item.GetShortID())
+		return ErrReactorFrozen
 	}
 
 	select {
